@@ -96,6 +96,7 @@ def main():
     ap.add_argument("--list", action="store_true")
     ap.add_argument("--only", default=None)
     ap.add_argument("-v", action="store_true")
+    ap.add_argument("--stale-ok", action="store_true", help="variants whose edit no longer applies to the tree are skipped, not failed")
     a = ap.parse_args()
     mods = sorted(f[:-3] for f in os.listdir(HERE) if re.match(r"v_c\d+\.py$", f))
     jobs = []
@@ -120,7 +121,11 @@ def main():
     finally:
         shutil.rmtree(tmp, ignore_errors=True)
     bad = 0
+    nstale = 0
     for pid, v, status, info in res:
+        if status == "STALE" and a.stale_ok:
+            nstale += 1
+            continue
         if status != "OK" or a.v:
             print("%-14s %s %-6s %s" % (status, pid, v["kind"], v["name"]))
             if status != "OK":
@@ -128,7 +133,8 @@ def main():
         if status != "OK":
             bad += 1
     nb = sum(1 for r in res if r[1]["kind"] == "break")
-    print("selftest: %d variants (%d breaking, %d preserving), %d not as expected" % (len(res), nb, len(res) - nb, bad))
+    print("selftest: %d variants (%d breaking, %d preserving), %d not as expected%s" % (
+        len(res), nb, len(res) - nb, bad, (", %d skipped (edit does not apply to this tree)" % nstale) if nstale else ""))
     return 2 if bad else 0
 
 
